@@ -442,12 +442,13 @@ type workerResult struct {
 	message   string
 	dir       string
 	infraErr  string
+	ph        phase
 }
 
 var sigRe = regexp.MustCompile(`VIOLATION-SIG (\S+) :: (.*)`)
 
 func runWorker(bin string, sc *scratch, id, tier string, ph phase, round, w int, seed uint64, checks int, timeout time.Duration, extraArgs []string) *workerResult {
-	res := &workerResult{round: round, w: w, seed: seed, checks: checks}
+	res := &workerResult{round: round, w: w, seed: seed, checks: checks, ph: ph}
 	dir := filepath.Join(sc.dir, fmt.Sprintf("%s-r%dw%d", ph.Engine, round, w))
 	if ph.Race {
 		dir += "race"
@@ -847,6 +848,9 @@ func merge(cfg propCfg, tier string, seed uint64, seeds []uint64, all []*workerR
 }
 
 func phaseOf(cfg propCfg, r *workerResult) phase {
+	if r.ph.Engine != "" {
+		return r.ph
+	}
 	for _, ph := range cfg.Phases {
 		suffix := ph.Engine + fmt.Sprintf("-r%dw%d", r.round, r.w)
 		if ph.Race {
